@@ -3,7 +3,9 @@ package main
 import (
 	"encoding/json"
 	"fmt"
+	"math"
 	"math/rand"
+	"reflect"
 
 	"github.com/rkosegi/yaml-toolkit/dom"
 )
@@ -46,8 +48,8 @@ type c05Hist struct {
 
 func init() {
 	register(&Prop{ID: "C05", Run: c05Run,
-		Rule: "pairs/triples of nodes (containers, lists, leaves) generated as near-misses of one another (one key more/less, one leaf changed, list reordered, kind swapped) and independently; thorough tier adds all ordered pairs of all nodes up to 4 nodes over keys {a,b} and scalars {1,2,null}; clone cases edit one side after Clone; heap-clone cases build the document in one of seven ways (FromMap, AddValue/ListNode with own or shared nil leaves, AddContainer/AddList/Set/Append, shared subtrees, containers with an add-and-remove history), encode the real object graph as an explicit heap by pointer identity, Clone, and compare the sharing map (which result node is which input object / a new object) with the heap model, then write in place to every container/list object of the original and of the clone; hist cases give a document a history of 1-6 in-place edits (AddValue / Remove / AddContainer / AddList / Set / MustSet / Append / Clear, through the nested builder, through Lookup, or through the root's path API; consecutive edits differ in operation or route and mostly stay on one node), some nested nodes attached as sealed views whose builders the harness keeps, and before every edit and at the end read the document through every read API (Equals both ways against a freshly built document of the expected content and against its clone, reflexivity, Children/Items walk, Size, AsMap/AsSlice, Flatten, Search, Lookup) and clone it through every entry point (builder, sealed view, every nested node): every clone must still hold the content of its moment after all later edits. A case is non-trivial when at least one side is a composite with a child; distinct = distinct canonical case JSON (hash).",
-		Assumptions: []string{"scalars are NaN-free and -0-free, so cmp.Equal on leaves coincides with equality of (Go type, fmt.Sprint) pairs",
+		Rule: "pairs/triples of nodes (containers, lists, leaves) generated as near-misses of one another (one key more/less, one leaf changed, list reordered, kind swapped) and independently; one pair in seven differs in ONE leaf by a value-range twin (vr_util.go / c05ValueTwins: float64 +0.0 next to -0.0 — equal scalars: Go's ==, reflect.DeepEqual and cmp.Equal identify them —, -0.0 next to int 0 / \"-0\" / false / null, MaxInt64 and MaxUint64 next to the float64 they round to, denormals next to 0, +Inf next to MaxFloat64 and -Inf, strings that differ by case, a trailing newline, CRLF vs LF, NBSP vs space, Unicode normalisation, case pairs outside ASCII, 20-digit strings one apart, boolean spellings next to booleans) and a third of all nodes carry value-range scalars at some leaves; the expected answer is literally the property's: kind(x)==kind(y) && reflect.DeepEqual(plain(x), plain(y)); thorough tier adds all ordered pairs of all nodes up to 4 nodes over keys {a,b} and scalars {1,2,null}; clone cases edit one side after Clone; heap-clone cases build the document in one of seven ways (FromMap, AddValue/ListNode with own or shared nil leaves, AddContainer/AddList/Set/Append, shared subtrees, containers with an add-and-remove history), encode the real object graph as an explicit heap by pointer identity, Clone, and compare the sharing map (which result node is which input object / a new object) with the heap model, then write in place to every container/list object of the original and of the clone; hist cases give a document a history of 1-6 in-place edits (AddValue / Remove / AddContainer / AddList / Set / MustSet / Append / Clear, through the nested builder, through Lookup, or through the root's path API; consecutive edits differ in operation or route and mostly stay on one node), some nested nodes attached as sealed views whose builders the harness keeps, and before every edit and at the end read the document through every read API (Equals both ways against a freshly built document of the expected content and against its clone, reflexivity, Children/Items walk, Size, AsMap/AsSlice, Flatten, Search, Lookup) and clone it through every entry point (builder, sealed view, every nested node): every clone must still hold the content of its moment after all later edits. A case is non-trivial when at least one side is a composite with a child; distinct = distinct canonical case JSON (hash).",
+		Assumptions: []string{"scalars are NaN-free; the model's scalars are (Go type, fmt.Sprint text) pairs, on which equality coincides with cmp.Equal except for float64 -0.0 (text \"-0\", yet equal to +0.0): cases in which a negative zero occurs are judged by the direct predicates alone (reference: reflect.DeepEqual on the plain values) and are not sent to the model",
 			"keys come from a path-safe pool (no key ends in an index group: the API invariant discussed under D26)",
 			"heap tie: a node object is identified by the address its pointer holds (a sealed view and its builder are one object), a children map by the address of its header (Children() returns the map itself); item slices are not observable by identity and are covered by the in-place write probes; leaf values are immutable scalars"}})
 	evals["C05"] = c05Eval
@@ -81,12 +83,34 @@ func c05Run(c *Ctx) {
 	for i := 0; i < c.N(3000); i++ {
 		c.Tick()
 		x := anyNode()
+		if r.Intn(3) == 0 {
+			x = vrSprinkle(r, x, 0.4, vrOpts{Inf: true})
+			c.Dist("pair:value-range-scalars")
+		}
 		var y W
-		switch r.Intn(6) {
+		switch r.Intn(7) {
 		case 0:
 			y = anyNode()
 		case 1:
 			y = deepCopyW(x)
+		case 5:
+			if r.Intn(2) == 0 {
+				// the two sides differ in ONE member name only, by names that a sloppy comparison identifies (case, blanks,
+				// Unicode normalisation, a path spelled with another separator)
+				x, y = c05KeyTwins(r, g, x)
+				c.Dist("pair:twin-member-names")
+			} else {
+				y = g.Mutate(r, x)
+			}
+		case 6:
+			// the two sides differ in one leaf only, by a value-range twin: scalars next to each other at a boundary of
+			// the value range, some of them EQUAL although they print differently (+0.0 / -0.0)
+			if a, b, ok := c05ValueTwins(r, x); ok {
+				x, y = a, b
+				c.Dist("pair:value-range-twins")
+			} else {
+				y = deepCopyW(x)
+			}
 		case 2:
 			// the two sides differ in one leaf only, by scalars that a sloppy comparison identifies
 			// (same text under another type, neighbours beyond 2^53, int vs float of one value)
@@ -391,7 +415,7 @@ func c05Eval(c *Ctx, kind string, raw []byte) {
 			// and between them): equality is about content, never about which objects hold it
 			memo := map[string]dom.Node{}
 			xd, yd := heapBuildDag(p.X, memo), heapBuildDag(p.Y, memo)
-			want := canon(p.X) == canon(p.Y)
+			want := c05StructEq(p.X, p.Y)
 			c.Direct("equals-iff-structural(shared node objects)",
 				xd.Equals(yd) == want && yd.Equals(xd) == want && xd.Equals(y) == want && y.Equals(xd) == want && x.Equals(yd) == want && xd.Equals(xd),
 				map[string]any{"structural": want, "xd.Equals(yd)": xd.Equals(yd), "yd.Equals(xd)": yd.Equals(xd), "xd.Equals(y)": xd.Equals(y), "y.Equals(xd)": y.Equals(xd)})
@@ -407,7 +431,13 @@ func c05Eval(c *Ctx, kind string, raw []byte) {
 		if !c.Direct("no-panic", out == "ok", txt) {
 			return
 		}
-		structEq := canon(p.X) == canon(p.Y)
+		structEq := c05StructEq(p.X, p.Y)
+		negZero := vrHasNegZero(p.X) || vrHasNegZero(p.Y)
+		if negZero {
+			c.Dist("pair:negative-zero(direct predicates only)")
+		} else if structEq != (canon(p.X) == canon(p.Y)) {
+			panic("harness: reflect.DeepEqual on the plain values and equality of the wire forms disagree on a case without a negative zero")
+		}
 		if structEq {
 			c.Dist("pair:equal")
 		} else {
@@ -421,8 +451,10 @@ func c05Eval(c *Ctx, kind string, raw []byte) {
 		c.Direct("sameas-iff-kind", same == (wireKind(p.X) == wireKind(p.Y)), same)
 		c.Direct("clone-equals-original", xcx && cxx, map[string]any{"x.Equals(clone)": xcx, "clone.Equals(x)": cxx})
 		c.Direct("clone-content", canon(cw) == canon(p.X), cw)
-		m := c.Model("equals", map[string]any{"x": p.X, "y": p.Y})
-		c.Corr("equals", map[string]any{"xy": xy, "yx": yx, "xx": xx, "same": same, "cx": cw, "xcx": xcx}, m)
+		if !negZero {
+			m := c.Model("equals", map[string]any{"x": p.X, "y": p.Y})
+			c.Corr("equals", map[string]any{"xy": xy, "yx": yx, "xx": xx, "same": same, "cx": cw, "xcx": xcx}, m)
+		}
 	case "hist":
 		c05EvalHist(c, raw)
 	case "triple":
@@ -443,6 +475,8 @@ func c05Eval(c *Ctx, kind string, raw []byte) {
 			c.Dist("triple:premises-hold")
 		}
 		c.Direct("equals-transitive", !(xy && yz) || xz, map[string]any{"xy": xy, "yz": yz, "xz": xz})
+		c.Direct("equals-iff-structural(triple)", xy == c05StructEq(p.X, p.Y) && yz == c05StructEq(p.Y, p.Z) && xz == c05StructEq(p.X, p.Z),
+			map[string]any{"xy": xy, "yz": yz, "xz": xz, "structural xy": c05StructEq(p.X, p.Y), "structural yz": c05StructEq(p.Y, p.Z), "structural xz": c05StructEq(p.X, p.Z)})
 	case "clone":
 		var p c05Clone
 		if err := json.Unmarshal(raw, &p); err != nil {
@@ -595,4 +629,87 @@ func c05Sealed(n dom.Node) dom.Node {
 		return b.Seal()
 	}
 	return n
+}
+
+// c05StructEq is the right-hand side of the property's equivalence, literally: kind(x)==kind(y) and
+// reflect.DeepEqual(plain(x), plain(y)) on the plain Go values (maps, slices, typed scalars) the nodes hold.
+func c05StructEq(x, y W) bool {
+	return wireKind(x) == wireKind(y) && reflect.DeepEqual(wirePlain(x), wirePlain(y))
+}
+
+// c05KeyTwins returns two copies of w (a container is put around w when it has none) that differ in one member name
+// of one container: the same value sits under k1 on one side and under k2 on the other, for names k1 != k2 that look
+// alike; now and then one side has the value under both names.
+func c05KeyTwins(r *rand.Rand, g *DocGen, w W) (W, W) {
+	if wireKind(w) != "cont" {
+		w = map[string]any{"m": map[string]any{"a": w}}
+	}
+	var ps, conts []dhPos
+	dhPositions(w, []any{}, &ps)
+	for _, p := range ps {
+		if p.kind == "cont" {
+			conts = append(conts, p)
+		}
+	}
+	p := pick(r, conts)
+	tw := pick(r, [][2]string{{"maxConn", "maxconn"}, {"a", "A"}, {"a", "a "}, {"a", " a"}, {"a", "\u00a0a"}, {"a b", "a  b"}, {"a", "a\n"}, {"\u00e9", "e\u0301"}, {"ß", "ss"}, {"İ", "i"}, {"ı", "i"},
+		{"a.b", "a/b"}, {"a.b", "a b"}, {"", " "}, {"0", "00"}, {"1", "+1"}, {"k1", "K1"}, {"x-y", "x_y"}, {"z_9", "z-9"}, {"🚀", "🚀 "}, {"𝛼", "α"}, {"true", "True"}, {"a[x]", "a[X]"}, {"~", "~0"}})
+	if r.Intn(2) == 0 {
+		tw[0], tw[1] = tw[1], tw[0]
+	}
+	v := g.Node(r, g.MaxDepth-1)
+	both := r.Intn(4) == 0
+	put := func(names ...string) W {
+		out, _ := dhUpdate(w, p.at, func(x W) (W, bool) {
+			cm, _ := wireCont(x)
+			m := map[string]any{}
+			for k, e := range cm {
+				if k != tw[0] && k != tw[1] {
+					m[k] = e
+				}
+			}
+			for _, n := range names {
+				m[n] = deepCopyW(v)
+			}
+			return map[string]any{"m": m}, true
+		})
+		return out
+	}
+	if both {
+		return put(tw[0], tw[1]), put(tw[0])
+	}
+	return put(tw[0]), put(tw[1])
+}
+
+// c05ValueTwins returns two copies of w that differ in exactly one leaf position, by two scalars next to each other
+// at a boundary of the value range (ok=false when w has no leaf).  Some twins are EQUAL scalars that print
+// differently (the two float64 zeros), most are different scalars that a sloppy comparison identifies.
+func c05ValueTwins(r *rand.Rand, w W) (W, W, bool) {
+	var slots [][]any
+	wireLeafSlots(w, nil, &slots)
+	if len(slots) == 0 {
+		return nil, nil, false
+	}
+	negZero := math.Copysign(0, -1)
+	pairs := [][2]any{
+		{0.0, negZero}, {0.0, negZero}, {0.0, negZero}, {negZero, negZero}, {negZero, 0}, {negZero, "-0"}, {negZero, "0"}, {0.0, "0"}, {negZero, false}, {negZero, nil}, {negZero, int64(0)},
+		{negZero, -5e-324}, {0.0, 5e-324}, {1e-320, 0.0},
+		{math.MaxInt64, float64(math.MaxInt64)}, {int64(math.MaxInt64), float64(math.MaxInt64)}, {uint64(math.MaxUint64), float64(math.MaxUint64)},
+		{uint64(1 << 63), float64(1 << 63)}, {uint64(1 << 63), "9223372036854775808"}, {math.MinInt64, -float64(1 << 63)}, {math.MaxInt64, math.MaxInt64 - 1},
+		{float64(1 << 53), int(1<<53 + 1)}, {float64(1 << 53), float64(1<<53) + 2}, {math.MaxInt32 + 1, math.MinInt32},
+		{math.Inf(1), math.MaxFloat64}, {math.Inf(1), math.Inf(-1)}, {math.Inf(1), "+Inf"}, {math.Inf(1), math.Inf(1)},
+		{0.1 + 0.2, 0.3}, {1e21, "1e+21"}, {100.0, 1e2}, {100.0, "1e2"},
+		{"maxConn", "maxconn"}, {"\u00e9", "e\u0301"}, {"s", "s\n"}, {"s\r\n", "s\n"}, {"s", "\u00a0s"}, {" s", "\u00a0s"}, {"ß", "ss"}, {"İ", "i"}, {"ı", "i"}, {"I", "ı"}, {"Ω", "ω"},
+		{"🚀", "🚀 "}, {"𝛼", "α"}, {"\ufffd", "?"}, {"", " "}, {"a\tb", "a b"},
+		{"18446744073709551616", "18446744073709551615"}, {"123456789012345678901234567890", "123456789012345678901234567891"}, {"007", "7"}, {"+1", "1"}, {"1.0", "1"},
+		{"true", "True"}, {"t", true}, {"T", true}, {"1", true}, {"0", false}, {"", false}, {"f", false}, {"null", nil}, {"~", nil},
+		{"a.b", "a/b"}, {"a[0]", "a.0"}, {"{}", "{ }"}, {"#", ""},
+	}
+	p := pick(r, pairs)
+	s := pick(r, slots)
+	a, b := scalarWire(p[0]), scalarWire(p[1])
+	if r.Intn(2) == 0 {
+		a, b = b, a
+	}
+	return wireSetSlot(deepCopyW(w), s, a), wireSetSlot(deepCopyW(w), s, b), true
 }
